@@ -48,7 +48,7 @@ Definition str_of_Z (z : Z) : str :=
 
 (** * int(s) for ASCII s: surrounding whitespace stripped, optional sign, digits with single
       underscores between digits.  [None] = ValueError. *)
-Definition is_ws (c : Z) : bool := existsb (Z.eqb c) [9; 10; 11; 12; 13; 28; 29; 30; 31; 32].
+Definition is_ws (c : Z) : bool := existsb (Z.eqb c) [9; 10; 11; 12; 13; 32].
 Definition is_digit (c : Z) : bool := (48 <=? c) && (c <=? 57).
 
 Fixpoint lstrip (s : str) : str :=
